@@ -32,7 +32,7 @@ CHECKS = {
  "C11": dict(
    category="proof",
    text="The two assignments of the stick-breaking loop are translated from the source on every run (C11_fl_source). Coq/Flocq (Props/C11_fl.v): for the stick-breaking loop of DirichletFromBeta every component is a finite float in [0,1] and the real sum of the float components is within len*(2u+3eta) of 1, for vectors of any length. Coq: reverse cumulative sum specification (entry i = sum_{j>i} alpha_j) so the stick-breaking chain uses Beta(alpha_i, tail_i); stick-breaking and gamma-normalisation outputs lie on the simplex (exact sum 1) for all inputs, lifted to every result of the Dirichlet model for both methods; method switch iff all alpha_i <= fl(0.1); at the IEEE level (Flocq, binary32/binary64, Props/C11_fl.v) the libm-free stick-breaking loop turns Beta draws that are finite floats in [0,1] (C03_beta_final_in_unit) into exactly len+1 components each of which is a finite float in [0,1], for vectors of any length. Model tied pathwise to the crate on identical alpha bits and words; simplex predicate and sample() = sample_to_slice() on the real output.",
-   note="Marginal/ratio laws reduce to C01's Beta/Gamma results by classical theorems not formalised (B-class).",
+   note="Known finding F19 (Dirichlet<f32>, gamma path, an alpha below 0.19: underflow gives [inf, NaN] on about 5e-7 of the streams) is replayed on every run and printed as KNOWN-FINDING. Marginal/ratio laws reduce to C01's Beta/Gamma results by classical theorems not formalised (B-class).",
    technique="Coq proof (list recursion spec, simplex lemmas lifted over the model) + pathwise correspondence",
    design="DESIGN.md §6 C11"),
  "C12": dict(
